@@ -603,7 +603,23 @@ pub fn step_frame(s: &Step, f: &Frame, prog: &Program) -> Frame {
             }
             g
         }
-        Step::Append(_) => f.clone(),
+        Step::Append(src) => {
+            // column names come from the top relation; a column it leaves unnamed takes the name the bottom
+            // relation gives to that position (the compiler intersects the two tuple types field by field)
+            let bottom = source_frame(src, None, prog);
+            let mut g = f.clone();
+            for (i, c) in g.cols.iter_mut().enumerate() {
+                if c.name.is_none() {
+                    if let Some(b) = bottom.cols.get(i) {
+                        if let Some(n) = &b.name {
+                            c.name = Some(n.clone());
+                            c.input = None;
+                        }
+                    }
+                }
+            }
+            g
+        }
     }
 }
 
